@@ -143,6 +143,12 @@ def rec_index(cells):
     """publication number of a complete record, 0 for the empty record, None for a mixture"""
     if all(v == 0 for v in cells):
         return 0
+    if cells[0] == 7:
+        # the family of `shmc` (Machine.rec_of_c): as-of and bound the same in every publication
+        k = cells[2] // 1000
+        if k >= 1 and cells[1] == 8 and cells[4] == 9 and all(cells[i] == 1000 * k + i for i in (2, 3, 5)) and cells[6] == k % 3:
+            return k
+        return None
     k = cells[0] // 1000
     if k >= 1 and all(cells[i] == 1000 * k + i for i in range(6)) and cells[6] == k % 3:
         return k
@@ -221,7 +227,7 @@ def judge(tokens, out, want, ra=False):
                 if it["t"] != "A":
                     continue
                 writer_steps_total += 1
-                if it["kind"] == "W" and it["loc"] != "c6":
+                if it["kind"] == "W" and it["loc"] != "c6" and it["val"] >= 1000:
                     started = it["val"] // 1000          # publication number carried by the cells being stored
                 if it["kind"] == "L":
                     gstores = 0                          # a write() call begins with its generation load
@@ -488,6 +494,10 @@ def run_property(pid, res, proofs_ok, proofs_why, extra_part=None):
     # next (`shmd`; the observations are mapped back, so the model run is the same): what the records say
     # must not matter to the protocol (the theorems hold for every record function, class RecFun)
     desc = [k % 3 == 2 for k in range(len(lines))]
+    # ... and another third publishes records with the same as-of instant and the same bound every time
+    # (`shmc`, Machine.rec_of_c: what the daemon writes while chronyd is silent), compared with the machine
+    # publishing the same records
+    lines = [("shmc" + ln[3:]) if k % 3 == 1 else ln for k, ln in enumerate(lines)]
     impl = c.run_lines(binary, [("shmd" + ln[3:]) if d else ln for ln, d in zip(lines, desc)], timeout=1800)
     model = c.run_model(lines, timeout=1800)
     res.evaluations = len(lines)
@@ -496,16 +506,18 @@ def run_property(pid, res, proofs_ok, proofs_why, extra_part=None):
         res.count("gen:" + tg)
         if desc[k_]:
             res.count("records:as-of running down")
+        if ln.startswith("shmc"):
+            res.count("records:as-of and bound the same in every publication")
         ntoks = {"W": 0, "R": 0, "C": 0, "S": 0, "N": 0, "J": 0}
         for t in s:
             ntoks[t[0]] += 1
         if ntoks["W"] and ntoks["R"]:
             res.nontriv(ln)
         if i != m:
-            diffs.append({"schedule": tok_str(s), "impl": i, "model": m, "descending_as_of": desc[k_]})
+            diffs.append({"schedule": tok_str(s), "impl": i, "model": m, "descending_as_of": desc[k_], "constant_as_of": ln.startswith("shmc")})
         why = judge(s, i, pid)
         if why:
-            bad.append({"schedule": tok_str(s), "impl": i, "model": m, "why": why, "descending_as_of": desc[k_]})
+            bad.append({"schedule": tok_str(s), "impl": i, "model": m, "why": why, "descending_as_of": desc[k_], "constant_as_of": ln.startswith("shmc")})
     res.rule = ("schedules = one token per shared access (W writer, R reader j, C crash, S restart, N new reader) executed on the real "
                 "ShmWriter/ShmReader threads under the shim's scheduler and on Machine.m_run; small-scope = every placement of one "
                 "snapshot into one update (a, b, c split points); non-trivial = schedule with writer and reader accesses interleaved")
@@ -595,6 +607,8 @@ def replay_property(pid, res, path):
         return 1
     toks = parse_tok_str(sched)
     ln = line_of(cfg, toks)
+    if case.get("constant_as_of"):
+        ln = "shmc" + ln[3:]
     i, m = c.run_lines(binary, [("shmd" + ln[3:]) if case.get("descending_as_of") else ln])[0], c.run_model([ln])[0]
     why = judge(toks, i, pid, ra=any(t[0] == "R" and t[2] is not None for t in toks))
     print("schedule %s\nimpl  %s\nmodel %s\npredicate: %s" % (sched, i, m, why or "holds"))
